@@ -126,6 +126,18 @@ def gen(rnd, tier):
         c = D.stream_case(evs, tag="data-with-error")
         c["err_with_last"] = True
         cases.append(c)
+    # the input ends right after a FULL read: what was held back in case more would follow (a rune run, an ESC, the start
+    # of a sequence) must be released when the end of the input is known
+    tails = [[97], [27], [27, 91], [27, 91, 49, 59], [27, 79], [0xE4, 0xB8], [27, 91, 77, 32], [27, 91, 60, 49, 59, 50], [27, 27], [104, 105]]
+    for k, tail in enumerate(tails):
+        for total in (256, 512):
+            for fill in (97, 13):
+                bs = [fill] * (total - len(tail)) + tail
+                cases.append(D.bytes_case(bs, [256], err=["eof", "fail"][k % 2], tag="full-last-read"))
+    for i in range(20 if tier == "quick" else 400):
+        bs = soup(rnd, 600)[:rnd.choice([256, 512])]
+        if len(bs) in (256, 512):
+            cases.append(D.bytes_case(bs, [256], err="eof", tag="full-last-read"))
     # unterminated pastes growing over several reads
     for ln in [0, 1, 250, 256, 600]:
         cases.append(D.bytes_case([27, 91, 50, 48, 48, 126] + soup(rnd, ln), [256], err="fail", tag="open-paste"))
